@@ -258,4 +258,43 @@ def uriValueAux (esc : Bool) : List Nat → Bool
     else if c = 92 then uriValueAux true rest
     else (lowerAlnumC c || c == 95 || c == 63 || c == 42) && uriValueAux false rest
 
+/-! ### URI binding of a name (NISTIR 7695 §6.1.2: bind_to_URI, bind_value_for_URI, pack, trim)
+
+     uri := "cpe:/"
+     FOREACH a IN (part, vendor, product, version, update, edition, language)
+       IF a = edition THEN v := pack(ed, sw_ed, t_sw, t_hw, oth)   ; each bound with bind_value_for_URI
+       ELSE v := bind_value_for_URI(get(w, a))
+       uri := strcat(uri, v, ":")
+     RETURN trim(uri)                                                ; trailing colons removed
+
+     bind_value_for_URI(s): ANY -> "", NA -> "-", else transform_for_uri(s)
+     pack: if sw_ed, t_sw, t_hw and oth are all "" then ed
+           else "~" ed "~" sw_ed "~" t_sw "~" t_hw "~" oth
+
+  An unset attribute reads as ANY (§5.4.2). -/
+
+def bindValueURI (k : Kind) (v : List Nat) : List Nat :=
+  match k with
+  | .unset | .any => []
+  | .na => [45]
+  | .set => transformURI v
+
+def packURI (ed sw tsw thw oth : List Nat) : List Nat :=
+  if sw = [] ∧ tsw = [] ∧ thw = [] ∧ oth = [] then ed
+  else 126 :: ed ++ 126 :: sw ++ 126 :: tsw ++ 126 :: thw ++ 126 :: oth
+
+/-- `trim`: trailing colons removed. -/
+def trimColons (s : List Nat) : List Nat := (s.reverse.dropWhile (· == 58)).reverse
+
+/-- `bind_to_URI` of a name given as its eleven (kind, value string)
+    attributes in the order part, vendor, product, version, update, edition,
+    language, sw_edition, target_sw, target_hw, other. -/
+def bindURI (w : List (Kind × List Nat)) : List Nat :=
+  let b := fun (i : Nat) => match w[i]? with
+    | some a => bindValueURI a.1 a.2
+    | none => []
+  [99, 112, 101, 58, 47] ++
+    trimColons (b 0 ++ 58 :: (b 1 ++ 58 :: (b 2 ++ 58 :: (b 3 ++ 58 :: (b 4 ++ 58 ::
+      (packURI (b 5) (b 7) (b 8) (b 9) (b 10) ++ 58 :: (b 6 ++ [58])))))))
+
 end ClairModel.CpeSpec
